@@ -200,7 +200,18 @@ def check_stream(run, e1, stream, cfgset, tier, rng, origin, vectors=None, readk
         if obs["terminal"][0] == "reject" and base["terminal"][0] == "reject" and obs["terminal"][1] != base["terminal"][1]:
             # same point, different reason given: which of two applicable checks fires first can depend on how much of an
             # over-limit head is buffered ("max buffer headers" looks at whatever has arrived) - counted
-            run.count("info_reject_class_differs/%s-vs-%s" % tuple(sorted([obs["terminal"][1], base["terminal"][1]])))
+            pair = tuple(sorted([obs["terminal"][1], base["terminal"][1]]))
+            if "LimitRequestHeaders" in pair:
+                run.count("info_reject_class_differs/%s-vs-%s" % pair)
+            else:
+                # two different answers (e.g. 400 for a malformed line, 431 / 414 for an over-long one) to the same bytes
+                nbad += 1
+                if nbad <= 2:
+                    run.violation("reject-reason-depends-on-segmentation/%s-vs-%s" % pair,
+                                  "the same bytes are refused as %s when delivered whole and as %s with cuts %s | cfg=%s stream=%s" % (
+                                      base["terminal"][1], obs["terminal"][1], cuts[:8], cfgset, hexs(stream[:120])),
+                                  {"stream": stream.hex() if len(stream) < 30000 else stream[:30000].hex(), "cfg": cfgset, "cuts": list(cuts),
+                                   "origin": origin, "readk": readk})
         if e1.obs_signature(obs) != bsig:
             nbad += 1
             if nbad <= 2:
